@@ -208,10 +208,10 @@ pub fn check(c: &Case, obs: &mut Obs) -> Result<(), Fail> {
         .layers
         .last()
         .and_then(|l| l.1.as_ref())
-        .and_then(|x| x.rgba())
-        .or_else(|| c.cfg.module_color.as_ref().and_then(|x| x.rgba()))
+        .and_then(|x| x.rgba_any())
+        .or_else(|| c.cfg.module_color.as_ref().and_then(|x| x.rgba_any()))
         .unwrap_or([0, 0, 0, 255]);
-    let bg_rgba = c.cfg.background.as_ref().and_then(|x| x.rgba()).unwrap_or([255, 255, 255, 255]);
+    let bg_rgba = c.cfg.background.as_ref().and_then(|x| x.rgba_any()).unwrap_or([255, 255, 255, 255]);
     let shape = c.cfg.layers.last().map(|l| l.0).unwrap_or(0);
     if c.cfg.layers.len() >= 2 {
         obs.label(&format!("layers:{}", c.cfg.layers.len()));
@@ -357,10 +357,18 @@ pub fn replay(_e: &Engine, case: &Value, obs: &mut Obs) -> Result<(), Fail> {
 fn colours() -> BoxedStrategy<(Option<ColorSpec>, Option<ColorSpec>)> {
     // opaque module colour; background opaque / fully transparent / partially transparent; the two differ clearly
     (
-        prop_oneof![1 => Just(None), 2 => (0u8..120, 0u8..120, 0u8..120).prop_map(|(r, g, b)| Some(ColorSpec::Rgb([r, g, b])))],
+        prop_oneof![
+            2 => Just(None),
+            4 => (0u8..120, 0u8..120, 0u8..120).prop_map(|(r, g, b)| Some(ColorSpec::Rgb([r, g, b]))),
+            // the same colours as hex strings, long and short form (the documented &str / String conversions)
+            1 => (0u8..120, 0u8..120, 0u8..120).prop_map(|(r, g, b)| Some(ColorSpec::Css(format!("#{:02x}{:02X}{:02x}", r, g, b)))),
+            1 => (0u8..8, 0u8..8, 0u8..8).prop_map(|(r, g, b)| Some(ColorSpec::Css(format!("#{:x}{:x}{:x}", r, g, b)))),
+        ],
         prop_oneof![
             2 => Just(None),
             2 => (140u8..=255, 140u8..=255, 140u8..=255).prop_map(|(r, g, b)| Some(ColorSpec::Rgb([r, g, b]))),
+            1 => (9u8..16, 9u8..16, 9u8..16).prop_map(|(r, g, b)| Some(ColorSpec::Css(format!("#{:x}{:X}{:x}", r, g, b)))),
+            1 => (140u8..=255, 140u8..=255, 140u8..=255).prop_map(|(r, g, b)| Some(ColorSpec::Css(format!("#{:02X}{:02x}{:02x}", r, g, b)))),
             2 => (140u8..=255, 140u8..=255, 140u8..=255).prop_map(|(r, g, b)| Some(ColorSpec::Rgba([r, g, b, 0]))),
             1 => (140u8..=255, 140u8..=255, 140u8..=255, prop_oneof![4 => 60u8..200, 1 => 1u8..60, 1 => 200u8..255]).prop_map(|(r, g, b, a)| Some(ColorSpec::Rgba([r, g, b, a]))),
         ],
